@@ -13,15 +13,23 @@ the code's (+x), applied only to polygons with >= 3 vertices whose non-zero coor
 points whose exact distance to every edge exceeds 1e-6 x polygon size; plus invariance of the code's answers
 under rotating / reversing / closing the vertex list and translating / scaling polygon and points together;
 plus `cells_inside_polygon` = the cells whose centres are inside.
-Cases: polygon families random, star-shaped, self-intersecting, lattice (horizontal, vertical, collinear edges,
-repeated vertices), rectilinear, convex, degenerate (1-2 vertices, zero area); open or closed vertex list, either
-orientation, any starting vertex; points random inside and outside the box, level with vertices, sharing an
-abscissa with vertices, on vertices / edges / box border, within and just beyond the tolerance of an edge, cell
-centres of the lattice; a malformed stream (empty polygon, answer vector of the wrong length).
+Cases: the corpus first (corpus/C15: diamond, M shape, notched square, collinear / repeated vertices, bow-tie,
+pentagram - each in every rotation, reversed and closed); polygon families random, star-shaped, self-intersecting,
+lattice (horizontal, vertical, collinear edges, repeated vertices), rectilinear, comb (many extrema on one level),
+convex, short-edge (nearly closed rings, slivers), degenerate (1-2 vertices, zero area), each under a random
+affine placement with offset-to-size ratios up to ~1e6; open or closed vertex list, either orientation, any
+starting vertex; points random inside and outside the box, level with vertices, sharing an abscissa with
+vertices, mid-points of vertex pairs, on vertices / edges / box border, within and just beyond the tolerance of
+an edge, half-integer lattice points; default and other tolerances, pre-filled answer vectors, integer-typed
+vertex arrays, nprint > 0, point sets of 1000-4097 points; grids 1..12 x 1..12 (now and then up to 45 x 45) with
+polygons aligned to cell corners / centres or placed freely (inside, overlapping, covering, beyond the grid);
+a malformed stream (empty polygon, answer vector of the wrong length, no points).
 A case is non-trivial when the polygon has >= 3 vertices and the code answers 1 for some points and 0 for others.
 """
 import json
 import math
+import os
+import sys
 from fractions import Fraction
 
 from . import common as C
@@ -141,7 +149,7 @@ def min_step(poly):
 # ------------------------------------------------------------------------------------------------
 # generators
 SCALES = [1.0, 1.0, 0.5, 2.0, 0.25, 10.0, 1000.0, 0.1, 0.001, 3.0, 1e5]
-OFFSETS = [0.0, 0.0, 1.0, -3.5, 100.0, -2.0, 0.1, 1e4]
+OFFSETS = [0.0, 0.0, 1.0, -3.5, 100.0, -2.0, 0.1, 1e4, 2.5e5, -3.9e6, 1.5e6]
 
 
 def affine(rng, poly):
@@ -153,7 +161,7 @@ def affine(rng, poly):
 
 def gen_polygon(rng, nmax):
     fam = rng.choice(["lattice", "lattice", "lattice", "random", "star", "selfint", "rectilinear", "collinear",
-                      "convex", "degenerate", "comb"])
+                      "convex", "degenerate", "comb", "short_edge"])
     if fam == "lattice":
         n = rng.randint(3, nmax)
         K = rng.randint(2, 6)
@@ -166,8 +174,8 @@ def gen_polygon(rng, nmax):
     elif fam == "random":
         n = rng.randint(3, nmax)
         poly = [(rng.uniform(0, 6), rng.uniform(0, 6)) for _ in range(n)]
-    elif fam in ("star", "selfint", "convex"):
-        n = rng.randint(3, nmax)
+    elif fam in ("star", "selfint", "convex", "short_edge"):
+        n = rng.randint(3, nmax - 1 if fam == "short_edge" else nmax)
         ang = sorted(rng.uniform(0, 2 * math.pi) for _ in range(n))
         if fam == "convex":
             rad = [3.0] * n
@@ -176,6 +184,12 @@ def gen_polygon(rng, nmax):
         poly = [(3 + r * math.cos(a), 3 + r * math.sin(a)) for r, a in zip(rad, ang)]
         if fam == "selfint":
             rng.shuffle(poly)
+        if fam == "short_edge":
+            # a vertex very close to its neighbour (a nearly closed ring, a sliver): short but >> atol
+            i = rng.choice([0, 0, len(poly) - 1, rng.randrange(len(poly))])
+            d = rng.choice([1e-2, 1e-3, 1e-4])
+            q = (poly[i][0] + d * rng.uniform(0.3, 1) * rng.choice([-1, 1]), poly[i][1] + d * rng.uniform(0.3, 1) * rng.choice([-1, 1]))
+            poly.insert(i + rng.choice([0, 1]), q)
     elif fam == "rectilinear":
         # staircase: alternate horizontal and vertical moves between lattice points, close back
         k = rng.randint(2, max(2, nmax // 2))
@@ -292,6 +306,8 @@ def body(ctx):
     import numpy as np
     from hydrodiy.gis import gutils
     from hydrodiy.gis.grid import Grid
+    import ctypes
+    libc = ctypes.CDLL(None)
     rng = ctx.rng
     lean = ctx.lean
     reqs, impls, cases = [], [], []          # bit-for-bit correspondence (Float model)
@@ -302,15 +318,32 @@ def body(ctx):
         impls.append(impl)
         cases.append(case)
 
-    def call_pip(pts, poly, atol=None, inside=None):
+    def call_pip(pts, poly, atol=None, inside=None, nprint=0, int_input=False):
         kw = {}
         if atol is not None:
             kw["atol"] = atol
         if inside is not None:
             kw["inside"] = inside
+        pa = np.array(pts, dtype=np.float64).reshape(-1, 2)
+        ya = np.array(poly, dtype=np.float64).reshape(-1, 2)
+        if int_input:
+            ya = ya.astype(np.int64)                     # integral vertices handed over as an integer array
         try:
-            r = gutils.points_inside_polygon(np.array(pts, dtype=np.float64).reshape(-1, 2),
-                                             np.array(poly, dtype=np.float64).reshape(-1, 2), **kw)
+            if nprint > 0:
+                # the kernel logs progress on the C stdout: keep it out of the check's output
+                sys.stdout.flush()
+                saved = os.dup(1)
+                devnull = os.open(os.devnull, os.O_WRONLY)
+                try:
+                    os.dup2(devnull, 1)
+                    r = gutils.points_inside_polygon(pa, ya, nprint=nprint, **kw)
+                finally:
+                    libc.fflush(None)
+                    os.dup2(saved, 1)
+                    os.close(saved)
+                    os.close(devnull)
+            else:
+                r = gutils.points_inside_polygon(pa, ya, **kw)
             return "ok " + bits(r), r
         except ValueError as e:
             msg = str(e)
@@ -365,13 +398,16 @@ def body(ctx):
         inside = None
         if mode == "prefilled":
             inside = np.ones(len(pts), dtype=np.int32)     # must be zeroed by the wrapper
-        impl, got = call_pip(pts, poly, atol=None if (mode == "default" and atol == ATOL) else atol, inside=inside)
+        int_input = mode == "int_input" and all(float(c).is_integer() and abs(c) < 2 ** 52 for p in poly for c in p)
+        impl, got = call_pip(pts, poly, atol=None if (mode == "default" and atol == ATOL) else atol, inside=inside,
+                             nprint=rng.choice([1, 7, 25]) if mode == "nprint" else 0, int_input=int_input)
         pm, tm = C.fmat(poly), C.fmat(pts)
         case = {"family": fam, "polygon": poly, "points": pts, "atol": atol, "mode": mode}
         add(f"pipf {C.f2h(atol)} {pm} {tm} {-1 if inside is None else len(inside)}", impl, case)
         nontrivial = got is not None and len(poly) >= 3 and 0 < int(np.sum(got)) < len(pts)
         ctx.count(("pip", pm, tm, atol), nontrivial, f"{fam}{'/closed' if closed else ''}",
                   sample={"family": fam, "polygon": poly[:6], "points": pts[:4], "answers": impl[:20]})
+        ctx.hist["mode:" + mode] = ctx.hist.get("mode:" + mode, 0) + 1
         if got is None:
             return
         for k in set(kinds):
@@ -401,7 +437,8 @@ def body(ctx):
                 poly2 = poly + [poly[0]]
             elif tr == "translate":
                 sz = float(Fraction(ep.size, ep.den))
-                dx, dy = rng.choice([1.0, -7.0, 0.1, 1e3, math.pi]) * sz, rng.choice([0.0, 2.0, -0.3, 1e3]) * sz
+                dx = rng.choice([1.0, -7.0, 0.1, 1e3, math.pi, 1e5, -7e5]) * sz
+                dy = rng.choice([0.0, 2.0, -0.3, 1e3, -2e5, 6e5]) * sz
                 poly2 = [(x + dx, y + dy) for x, y in poly]
                 pts2 = [(x + dx, y + dy) for x, y in pts]
             else:
@@ -450,8 +487,13 @@ def body(ctx):
         fam, poly, closed = gen_polygon(rng, nmax if rng.random() < 0.5 else min(nmax, 8))
         pts, kinds = gen_points(rng, poly, npts)
         atol = ATOL if rng.random() < 0.75 else rng.choice([0.0, 1e-3, 0.3, 1.5, 1e-12])
-        mode = rng.choice(["default", "default", "atol", "prefilled"])
+        mode = rng.choice(["default", "default", "atol", "prefilled", "int_input"] + (["nprint"] if _ip % 40 == 0 else []))
         run_case(fam, poly, closed, pts, kinds, atol, mode)
+    # a few large point sets (answers must not depend on how many points are asked at once)
+    for _ in range(ctx.scale(4, 30)):
+        fam, poly, closed = gen_polygon(rng, nmax)
+        pts, kinds = gen_points(rng, poly, rng.choice([1000, 2500, 4097]))
+        run_case(fam, poly, closed, pts, kinds, ATOL, rng.choice(["default", "prefilled"]), allow_invariance=False)
 
     # ---------------------------------------------------------------- malformed stream
     for _ in range(ctx.scale(20, 100)):
@@ -477,6 +519,8 @@ def body(ctx):
     # ---------------------------------------------------------------- cells_inside_polygon
     for ig in range(ctx.scale(250, 4000)):
         ncols, nrows = rng.randint(1, 12), rng.randint(1, 12)
+        if ig % 50 == 7:
+            ncols, nrows = rng.randint(25, 45), rng.randint(25, 45)      # a mid-size grid now and then
         csz = rng.choice([1.0, 0.5, 2.0, 0.25, 0.1, 30.0, 1.0])
         xll = rng.choice([0.0, -3.0, 0.5, 100.0, 0.3]) * csz
         yll = rng.choice([0.0, 2.0, -0.5, 1e3, 0.7]) * csz
